@@ -143,10 +143,6 @@ theorem setSeqNum_inv {j : Journal} (h : Handle) (out inn : Option Int) (hinv : 
   · exact hinv
   split
   · exact hinv
-  split
-  · exact updBoth_inv _ _ _ hinv
-  split
-  · exact delFrom_inv _ _ _ (updBoth_inv _ _ _ hinv)
   · exact delFrom_inv _ _ _ (delFrom_inv _ _ _ (updBoth_inv _ _ _ hinv))
 
 theorem applyOp_inv {j : Journal} (op : Op) (hinv : JInv j) : JInv (applyOp j op).1 := by
